@@ -183,14 +183,14 @@ def find_omega(g_w, twoth):
         sq_d = np.sqrt(sq_d)
         comega = (a*c + b*sq_d)/d
         somega = (b*c - a*sq_d)/d
-        omega.append(np.arccos(comega))
+        omega.append(np.arccos(np.clip(comega, -1, 1)))
 #        if omega[0] > np.pi:
 #            omega[0] = omega[0] - 2*np.pi
         if somega < 0:
             omega[0] = -omega[0]
         comega = comega - 2*b*sq_d/d
         somega = somega + 2*a*sq_d/d
-        omega.append(np.arccos(comega))
+        omega.append(np.arccos(np.clip(comega, -1, 1)))
 #        if omega[1] > np.pi:
 #            omega[1] = omega[1] - 2*np.pi
         if somega < 0:
